@@ -233,6 +233,7 @@ pub fn main(args: &Args) {
             ranges: vec![q.range()],
             max_steps: 5_000,
             record_atoms: atoms,
+            yield_after: args.flag("yield-after"),
         };
         let bodies = vec![producer_body(q.clone(), pushes), consumer_body(q.clone(), pops)];
         let res = sched::run(cfg, bodies, strat);
